@@ -4,12 +4,13 @@ from props.c12 import classify
 from lib.vlib import jdump
 
 IPF_PKG = "pkg/util/ipfilter"
+VIAS = ("remote", "xff", "xri", "xffchain", "xrichain")      # HttpRouter.tla: req.via
 IPF_INV = "INVARIANTS Refines Table ChainConj FamilySeparation\n"
 
 
-def ipf_cfg(w, ma, mb, chain):
-    return ("SPECIFICATION Spec\nCONSTANTS\n  BitWidth = %d\n  MaxAllow = %d\n  MaxBlock = %d\n  ChainMode = %s\n" % (
-        w, ma, mb, "TRUE" if chain else "FALSE")) + IPF_INV
+def ipf_cfg(w, ma, mb, chain, pair=False):
+    return ("SPECIFICATION Spec\nCONSTANTS\n  BitWidth = %d\n  MaxAllow = %d\n  MaxBlock = %d\n  ChainMode = %s\n  PairMode = %s\n" % (
+        w, ma, mb, "TRUE" if chain else "FALSE", "TRUE" if pair else "FALSE")) + IPF_INV
 
 
 IPF_TRACE_CFG = "SPECIFICATION TSpec\nCONSTRAINT HWM\nPOSTCONDITION Accepted\n"
@@ -23,24 +24,48 @@ def run(ctx):
                        "(filters / filter-less twin x cache off / on); traces = recorded decisions of random real IPv4/IPv6 filters and "
                        "recorded request sequences of the four muxes, validated by TLC; non-trivial = distinct (membership pattern, "
                        "default, decision) and (filter level, outcome) cases")
-    ctx.assumptions += ["client address unambiguous: RemoteAddr, or one public X-Forwarded-For / X-Real-IP value (realip's choice among "
-                        "several is third-party)", "addresses parse; IPv4-mapped IPv6 addresses excluded",
+    ctx.assumptions += ["client address unambiguous: RemoteAddr, or the only public address named by X-Forwarded-For / X-Real-IP (alone, or "
+                        "among private / loopback / link-local proxy hops; the choice among several public addresses is not the "
+                        "property's)", "addresses parse; IPv4-mapped IPv6 addresses excluded",
                         "bits of recorded addresses/prefixes computed with net/netip",
                         "C05 (ii) read as: routed like the filter-less twin (same cache size, same history) or as the routing rules say",
                         "C05 (iii): whether the filter of a host-matching rule passed over on the way to the route 'applies' is the server's "
                         "choice, shown by its cache-less search; the cached server after any history must make the same choice",
                         "a client denied only by a filter of a rule/path the request does not belong to may be refused or routed (iii)"]
-    if ctx.phase("ipf"):
-        _ipf(ctx)
-    if ctx.phase("mc"):
-        _mc(ctx)
-    if ctx.phase("mbt"):
-        _mbt(ctx)
-    if ctx.phase("tv"):
-        _tv(ctx)
+    R.run_phases(ctx, (("ipf", _ipf), ("mc", _mc), ("mbt", _mbt), ("tv", _tv)))
 
 
 # ------------------------------------------------------------------------------------------ ipfilter package
+def _vectors(ctx, vecs, width, name, least):
+    """replays the decision vectors of one universe on the real ipfilter.IPFilter"""
+    seen, uniq = set(), []
+    for v in vecs:
+        k = jdump([v["f"], v["a"]])
+        if k not in seen:
+            seen.add(k)
+            uniq.append(v)
+    if len(uniq) < least:
+        ctx.inconclusive("C05: only %d decision vectors exported (%s)" % (len(uniq), name))
+    inp = ctx.write_ndjson("c05_vectors_%s.ndjson" % name, uniq)
+    outp = ctx.path("c05_vec_out_%s.ndjson" % name)
+    rc, out = ctx.go_test(IPF_PKG, "^TestVerifC05Vectors$", env={"VERIF_IN": inp, "VERIF_OUT": outp, "VERIF_W": width}, timeout=900)
+    recs = ctx.read_ndjson(outp)
+    summ = [x for x in recs if x.get("k") == "summary"]
+    if rc != 0 or not summ or summ[0]["vectors"] != len(uniq):
+        ctx.inconclusive("C05 vector harness failed (%s):\n%s" % (name, out[-3000:]))
+    ctx.evals(len(uniq))
+    ctx.traces(len(uniq))
+    for v in uniq:
+        ctx.nontrivial({"u": name, "al": len(v["f"]["allow"]), "bl": len(v["f"]["block"]), "d": v["f"]["dflt"], "ok": v["allow"],
+                        "fam": v["a"]["fam"]})
+    ctx.sample({"kind": "decision-vector", "universe": name, "v": uniq[len(uniq) // 2]})
+    for m in [x for x in recs if x.get("k") == "mismatch"]:
+        al, bl = m.get("allowIPs") or [], m.get("blockIPs") or []      # a Go nil slice arrives as null
+        ctx.violation({"kind": "ipfilter-vector", "got": m["got"], "dflt": m["blockByDefault"], "nallow": len(al), "nblock": len(bl)},
+                      "IPFilter{allow %s, block %s, blockByDefault %s}.Allow(%s) = %s, the decision table says %s" % (
+                          al, bl, m["blockByDefault"], m["addr"], m["got"], m["exp"]), m)
+
+
 def _ipf(ctx):
     # exhaustive decision table + export of all vectors
     if ctx.quick:
@@ -49,30 +74,15 @@ def _ipf(ctx):
         ctx.tlc_mc("IPFilter_MC", ipf_cfg(2, 1, 2, True), timeout=900,
                    label="decision table with chains", deadlock=False)
         vecs = ctx.tlc_dump("IPFilter_MC", ipf_cfg(2, 2, 2, False), timeout=1500, label="decision table, width 2, <=2 allow, <=2 block")
-    seen, uniq = set(), []
-    for v in vecs:
-        k = jdump([v["f"], v["a"]])
-        if k not in seen:
-            seen.add(k)
-            uniq.append(v)
-    if len(uniq) < 1000:
-        ctx.inconclusive("C05: only %d decision vectors exported" % len(uniq))
-    inp = ctx.write_ndjson("c05_vectors.ndjson", uniq)
-    outp = ctx.path("c05_vec_out.ndjson")
-    rc, out = ctx.go_test(IPF_PKG, "^TestVerifC05Vectors$", env={"VERIF_IN": inp, "VERIF_OUT": outp, "VERIF_W": 2}, timeout=900)
-    recs = ctx.read_ndjson(outp)
-    summ = [x for x in recs if x.get("k") == "summary"]
-    if rc != 0 or not summ or summ[0]["vectors"] != len(uniq):
-        ctx.inconclusive("C05 vector harness failed:\n" + out[-3000:])
-    ctx.evals(len(uniq))
-    ctx.traces(len(uniq))
-    for v in uniq:
-        ctx.nontrivial({"al": len(v["f"]["allow"]), "bl": len(v["f"]["block"]), "d": v["f"]["dflt"], "ok": v["allow"], "fam": v["a"]["fam"]})
-    ctx.sample({"kind": "decision-vector", "v": uniq[len(uniq) // 2]})
-    for m in [x for x in recs if x.get("k") == "mismatch"]:
-        ctx.violation({"kind": "ipfilter-vector", "got": m["got"], "dflt": m["blockByDefault"], "nallow": len(m["allowIPs"]), "nblock": len(m["blockIPs"])},
-                      "IPFilter{allow %s, block %s, blockByDefault %s}.Allow(%s) = %s, the decision table says %s" % (
-                          m["allowIPs"], m["blockIPs"], m["blockByDefault"], m["addr"], m["got"], m["exp"]), m)
+    ctx.log("ipfilter: %d states of the small universe exported" % len(vecs))
+    _vectors(ctx, vecs, 2, "small", 1000)
+    ctx.log("ipfilter: small universe replayed")
+    # two nets of one size in one list (siblings, adjacent non-siblings, apart) at every prefix length of a width-3 space
+    vecs = ctx.tlc_dump("IPFilter_MC", ipf_cfg(3, 2, 2, False, pair=True), timeout=900,
+                        label="decision table, width 3, two same-size nets in one list, <=1 in the other")
+    ctx.log("ipfilter: %d states of the pair universe exported" % len(vecs))
+    _vectors(ctx, vecs, 3, "pairs", 10000)
+    ctx.log("ipfilter: pair universe replayed")
     # recorded decisions on real addresses
     nf, na = (350, 12) if ctx.quick else (5000, 16)
     tp = ctx.path("c05_ipf_trace.ndjson")
@@ -81,8 +91,9 @@ def _ipf(ctx):
     if rc != 0 or len(ev) < nf * na:
         ctx.inconclusive("C05 ipfilter trace harness failed:\n" + out[-3000:])
     allowed = sum(1 for e in ev if e["allow"])
+    vacuous = None      # judged after the trace (the count comes from the real code)
     if allowed < len(ev) // 10 or allowed > len(ev) * 9 // 10:
-        ctx.inconclusive("C05 ipfilter trace is vacuous: %d of %d decisions are 'allow'" % (allowed, len(ev)))
+        vacuous = "C05 ipfilter trace is vacuous: %d of %d decisions are 'allow'" % (allowed, len(ev))
     bad = {}
     chunk = 5000 if ctx.quick else 10000
     for k in range(0, len(ev), chunk):
@@ -103,6 +114,8 @@ def _ipf(ctx):
                       "IPFilter{allow %s, block %s, blockByDefault %s}.Allow(%s) = %s, the contract says %s" % (
                           [n["txt"] for n in e["f"]["allow"]], [n["txt"] for n in e["f"]["block"]], e["f"]["dflt"], e["a"]["txt"],
                           e["allow"], rec["allow"]), e)
+    if vacuous:
+        ctx.inconclusive(vacuous)
 
 
 # ------------------------------------------------------------------------------------------ mux level
@@ -149,11 +162,11 @@ def _mbt(ctx):
     # the general universe and four focused ones; the fourth: a filtered rule that the request's host matches but that
     # has no entry for it, ahead of the rule owning the route (C05 (iii))
     for k, (share, reqs, templates, shells, sfs, plans) in enumerate((
-            (0.2, "C12SimReqs", "C12SimTemplates", "C12SimShells", "C12SimServerFilters", "PlansC12"),
-            (0.15, "C12ReqsA", "C12HdrFocus", "C12Shells", "C12ServerFilters", "PlansHdrFocus"),
-            (0.2, "C12SimReqs", "C12FilterFocus", "C12SimShells", "C12SimServerFilters", "PlansFilterFocus"),
-            (0.2, "C05FocusReqs", "C12FilterFocus", "C05FocusShells", "C12SimServerFilters", "PlansFilterFocus"),
-            (0.25, "C12ReqsA", "C12RuleFocus", "C12FocusShells", "C12NoServerFilter", "PlansRuleFocus"))):
+            (0.2, "C12SimReqsVia", "C12SimTemplates", "C12SimShells", "C12SimServerFilters", "PlansC12"),
+            (0.15, "C12ReqsAVia", "C12HdrFocus", "C12Shells", "C12ServerFilters", "PlansHdrFocus"),
+            (0.2, "C12SimReqsVia", "C12FilterFocus", "C12SimShells", "C12SimServerFilters", "PlansFilterFocus"),
+            (0.2, "C05FocusReqsVia", "C12FilterFocus", "C05FocusShells", "C12SimServerFilters", "PlansFilterFocus"),
+            (0.25, "C12ReqsAVia", "C12RuleFocus", "C12FocusShells", "C12NoServerFilter", "PlansRuleFocus"))):
         behs += ctx.tlc_simulate("HttpRouter_Gen", R.gen_cfg(reqs, nreq, True, templates, shells, sfs, plans, twin=True),
                                  num=int(nb * share), depth=depth, timeout=1200, seed=ctx.seed * 10 + k)
     behs = [b for b in behs if b and b[0].get("a") == "cfg" and len(b) > 1]
@@ -175,10 +188,20 @@ def _mbt(ctx):
     if s["denied"] < s["steps"] // 20 or s["allowed"] < s["steps"] // 20 or s["passed"] < s["steps"] // 100:
         ctx.inconclusive("C05 replay is vacuous: %d requests, %d denied, %d allowed everywhere, %d denied by a passed-over rule only" % (
             s["steps"], s["denied"], s["allowed"], s["passed"]))
+    vias = {}
+    for b in behs:
+        for st in b[1:]:
+            if st.get("a") == "req":
+                v = st["q"].get("via", "remote")
+                vias[v] = vias.get(v, 0) + 1
+                if st["den"]:
+                    vias["denied/" + v] = vias.get("denied/" + v, 0) + 1
+    if any(vias.get("denied/" + v, 0) == 0 for v in VIAS):
+        ctx.inconclusive("C05 replay is vacuous: denied clients do not arrive in every way %s: %s" % (VIAS, vias))
     ctx.evals(s["steps"])
     ctx.traces(len(behs))
     ctx.notes.append({"replay_requests": s["steps"], "denied_by_applying_filter": s["denied"], "allowed_everywhere": s["allowed"],
-                      "denied_by_passed_over_rule_only": s["passed"]})
+                      "denied_by_passed_over_rule_only": s["passed"], "via": vias})
     for b in behs:
         cfg = b[0]["cfg"]
         for st in b[1:]:
@@ -220,8 +243,11 @@ def _tv(ctx):
         if e["ou"]["code"] in (0, 403):
             ctx.nontrivial({"tv": e["ou"]["code"], "via": e["q"].get("via"), "fam": e["q"]["ip"]["fam"], "z": R.kind(e["zu"])})
     ctx.notes.append({"tv_requests": len(reqs), "tv_403": n403, "tv_dispatched": nbe, "tv_via": vias})
-    if n403 < len(reqs) // 25 or nbe < len(reqs) // 25 or len(vias) < 3:
-        ctx.inconclusive("C05 trace is vacuous: %d requests, %d refused with 403, %d dispatched, via %s" % (len(reqs), n403, nbe, vias))
+    # (the outcome counts come from the real code: they are looked at after the trace has been judged, so that code which
+    # refuses nobody - or everybody - is reported as violating and not as a vacuous run)
+    vacuous = None
+    if n403 < len(reqs) // 25 or nbe < len(reqs) // 25 or any(vias.get(v, 0) < len(reqs) // 100 for v in VIAS):
+        vacuous = "C05 trace is vacuous: %d requests, %d refused with 403, %d dispatched, via %s" % (len(reqs), n403, nbe, vias)
     bad = R.validate_chunks(ctx, ev, "c05_tv", chunk=2500 if ctx.quick else 6000)
     ctx.evals(len(reqs))
     ctx.traces(ncfgs)
@@ -243,3 +269,5 @@ def _tv(ctx):
             ctx.violation(sig, _what(clause, cache, e["q"], o, z, rec["exp"] if rec["all"] else None, e.get("cul"), rec.get("own")),
                           {"cfg": cfg, "q": e["q"], "observed": o, "twin": z, "contract": rec, "culprit": e.get("cul")})
     ctx.notes.append({"trace_c05_failures": hit})
+    if vacuous:
+        ctx.inconclusive(vacuous)
